@@ -17,6 +17,7 @@ func init() {
 	vrt.Register("C11_method_chains", MethodChains)
 	vrt.Register("C11_more_shapes", MoreShapes)
 	vrt.Register("C11_index_of_another_type", IndexOfAnotherType)
+	vrt.Register("C11_narrow_integer_keys", NarrowIntegerKeys)
 }
 
 type T struct {
@@ -458,5 +459,117 @@ func IndexOfAnotherType() {
 	k := vrt.Choice(len(exprs2))
 	got, err = render("[<%= "+exprs2[k]+" %>]", ctx)
 	vrt.Assert(err != nil || got == "[]" || got == "["+wants[k]+"]", "an index of another integer kind: refused, or the numerically equal element: "+exprs2[k])
+	vrt.Cover("done")
+}
+
+// ---- maps and slices indexed with an arbitrary int where the key type is a
+// narrower, an unsigned or a named integer type: the lookup is refused, or it
+// yields the entry whose key is numerically equal to the index - never the
+// entry an out-of-range index wraps around to
+type ID int
+
+func NarrowIntegerKeys() {
+	i := vrt.Int()
+	l1, l2, l3 := leaf(), leaf(), leaf()
+	ctx := plush.NewContext()
+	ctx.Set("i", i)
+	ctx.Set("u8", map[uint8]string{1: l1, 2: l2, 255: l3})
+	ctx.Set("i8", map[int8]string{1: l1, -1: l2, 127: l3})
+	ctx.Set("u16", map[uint16]string{1: l1, 65535: l2, 256: l3})
+	ctx.Set("i64", map[int64]string{1: l1, -1: l2, 2: l3})
+	ctx.Set("u", map[uint]string{1: l1, 2: l2, 3: l3})
+	ctx.Set("id", map[ID]string{1: l1, 2: l2, 3: l3})
+	ctx.Set("i32", map[int32]string{1: l1, -2: l2, 3: l3})
+	type cs struct {
+		expr string
+		hit  func(i int) (string, bool)
+	}
+	cases := []cs{
+		{"u8[i]", func(i int) (string, bool) {
+			switch i {
+			case 1:
+				return l1, true
+			case 2:
+				return l2, true
+			case 255:
+				return l3, true
+			}
+			return "", false
+		}},
+		{"i8[i]", func(i int) (string, bool) {
+			switch i {
+			case 1:
+				return l1, true
+			case -1:
+				return l2, true
+			case 127:
+				return l3, true
+			}
+			return "", false
+		}},
+		{"u16[i]", func(i int) (string, bool) {
+			switch i {
+			case 1:
+				return l1, true
+			case 65535:
+				return l2, true
+			case 256:
+				return l3, true
+			}
+			return "", false
+		}},
+		{"i64[i]", func(i int) (string, bool) {
+			switch i {
+			case 1:
+				return l1, true
+			case -1:
+				return l2, true
+			case 2:
+				return l3, true
+			}
+			return "", false
+		}},
+		{"u[i]", func(i int) (string, bool) {
+			switch i {
+			case 1:
+				return l1, true
+			case 2:
+				return l2, true
+			case 3:
+				return l3, true
+			}
+			return "", false
+		}},
+		{"id[i]", func(i int) (string, bool) {
+			switch i {
+			case 1:
+				return l1, true
+			case 2:
+				return l2, true
+			case 3:
+				return l3, true
+			}
+			return "", false
+		}},
+		{"i32[i]", func(i int) (string, bool) {
+			switch i {
+			case 1:
+				return l1, true
+			case -2:
+				return l2, true
+			case 3:
+				return l3, true
+			}
+			return "", false
+		}},
+	}
+	c := cases[vrt.Choice(len(cases))]
+	got, err := render("[<%= "+c.expr+" %>]", ctx)
+	want, hit := c.hit(i)
+	if hit {
+		vrt.Assert(err != nil || got == "[]" || got == "["+want+"]", "an int index on a map with another integer key type: refused, or the numerically equal entry: "+c.expr)
+	} else {
+		vrt.Assert(err != nil || got == "[]", "an int index that equals no key of the map: an error or empty output, never some entry: "+c.expr)
+	}
 	vrt.Cover("done")
 }
